@@ -15,6 +15,14 @@ claimed = {
          "trace validation against TLA+ reference NfsSpec (RLE contents)", "5 C12"),
  "C13": ("model_checking", "NfsSpec carries a session monitor per directory (names seen, present throughout, present at any time); page-by-page enumerations with many budgets, with adds/removes between pages, are validated by TLC: no duplicate, nothing that was never there, nothing present throughout missed, progress on every page, attributes of the named objects.",
          "trace validation against TLA+ session monitor in NfsSpec", "5 C13"),
+ "C04": ("model_checking", "The structure of the file system is stated as TLA+ predicates (FsStruct: pointer ranges, single ownership, bitmap = ownership, inode bitmap = kinds, tree shape with exactly one name per live object, '.'/'..', names, sizes vs blocks). The harness decodes the logical disk (home blocks overlaid with the log, read through the journal of the instance) independently of the repository's decoders after every few operations of seeded sequences and directed probes; TLC evaluates every predicate on every snapshot and ties the number of live inodes to the reference state. Crash images are covered under C01.",
+         "TLA+ structural predicates (FsStruct) evaluated by TLC on decoded snapshots of the real server", "5 C04"),
+ "C05": ("model_checking", "Build-then-delete sequences (all size classes, sparse files, holes filled by reads, nested directories, renames over targets, failed operations in between) with structural snapshots at shrinker-idle points: FsStruct requires set bits = blocks owned, no half-freed object at idle, in-memory allocators = on-disk bitmaps; each sequence ends by deleting everything and TLC requires the free counts to be back at their post-mkfs values (modulo the root directory's own growth).",
+         "FsStruct NoLeak/AllocCoherent predicates + free-count rule in NfsTrace, checked by TLC on recorded runs", "5 C05"),
+ "C09": ("model_checking", "Sequences on nearly-full disks (1600-2300 blocks) with large writes, creates, renames and symlinks that fail part-way; a structural snapshot is taken after every operation and TLC requires the decoded disk, bitmaps, allocators and cache contents to be identical across every failed call (frame rule), the reference state to be unchanged by a failure, and all later replies, dumps and restarts to conform.",
+         "frame condition over consecutive snapshots + NfsSpec identity-on-error, checked by TLC", "5 C09"),
+ "C10": ("model_checking", "At quiescent points of sequences with more live objects than the inode cache holds, directories spanning many blocks and long names, the running server's tree dump, the dump after a restart on the same disk and the reference state must coincide (handles, attributes, listings, bytes); FsStruct CacheCoherent/AllocCoherent compare every cached inode, name cache and allocator with the decoded logical disk.",
+         "dump equality across restart + FsStruct cache/allocator coherence predicates, checked by TLC", "5 C10"),
 }
 checks = []
 for pid, (cat, text, tech, ref) in claimed.items():
